@@ -12,7 +12,9 @@ import (
 	"sync"
 	"time"
 
+	"github.com/elementsproject/peerswap/lnd"
 	"github.com/elementsproject/peerswap/lwk"
+	"github.com/elementsproject/peerswap/onchain"
 	"github.com/elementsproject/peerswap/swap"
 	"github.com/elementsproject/peerswap/txwatcher"
 
@@ -28,6 +30,8 @@ type realNode struct {
 	lbtcRPC  *sim.RpcFacade
 	electrum *sim.ElectrumFacade
 	useEl    bool
+	useLnd   bool // Bitcoin: the real lnd tx watcher over a fake chain notifier instead of the rpc watcher
+	lndChain *sim.LndChainFake
 	rpcDelay time.Duration // latency of every chain backend request (0 = none)
 	mu       sync.Mutex
 }
@@ -51,7 +55,11 @@ func (rn *realNode) startLocked() error {
 	w := rn.n.World()
 	lat := func(string) error { time.Sleep(rn.rpcDelay); return nil }
 	rn.btcRPC = &sim.RpcFacade{C: w.BTC, Hook: lat}
-	bw := txwatcher.NewBlockchainRpcTxWatcher(rn.ctx, rn.btcRPC, 3)
+	var bw swap.TxWatcher = txwatcher.NewBlockchainRpcTxWatcher(rn.ctx, rn.btcRPC, 3)
+	if rn.useLnd {
+		rn.lndChain = &sim.LndChainFake{C: w.BTC, Hook: lat}
+		bw = lnd.VerifNewTxWatcher(rn.ctx, rn.lndChain, rn.lndChain, sim.BtcParams, 3, onchain.BitcoinCsv)
+	}
 	var lw swap.TxWatcher
 	if rn.useEl {
 		// every Electrum request takes a moment, as a network round trip does: this is where other
@@ -460,4 +468,30 @@ func parseRaceReports(text string) []raceReport {
 		res = append(res, rr)
 	}
 	return res
+}
+
+// caughtUp waits (bounded, real time; only to let the concurrent real watchers make progress, never a verdict) until
+// the chain backends have answered something computed from the chains' current versions, then a moment longer for
+// the calls that follow from it.
+func (rn *realNode) caughtUp() {
+	w := rn.n.World()
+	rn.notify()
+	rn.mu.Lock()
+	type lv interface{ LastVersion() int64 }
+	var btc, lbtc lv
+	if rn.useLnd {
+		btc = rn.lndChain
+	} else {
+		btc = rn.btcRPC
+	}
+	if rn.useEl {
+		lbtc = rn.electrum
+	} else {
+		lbtc = rn.lbtcRPC
+	}
+	rn.mu.Unlock()
+	waitUntil(time.Second, func() bool {
+		return btc.LastVersion() >= w.BTC.VersionNow() && lbtc.LastVersion() >= w.LBTC.VersionNow()
+	})
+	time.Sleep(4 * time.Millisecond)
 }
